@@ -63,17 +63,17 @@ package config
 //@ spec igHasCol(ig *Integration, name string) bool = exists j int :: 0 <= j && j < len((*ig).Table.Columns) && colAt(ig, j).Name == name
 //@ spec igHasBD(ig *Integration, name string) bool = exists j int :: 0 <= j && j < len((*ig).Block) && bdAt(ig, j).Name == name
 
-//@ func (*Integration).AddRequiredFields$1 props=C16,C04
+//@ func (*Integration).AddRequiredFields$1 props=C16,C04,C02,C03
 //@   requires ig != nil
 //@   ensures [found] result ==> (exists j int witness rangeindex :: 0 <= j && j < len((*ig).Block) && (*ig).Block[j].Name == name)
 //@   ensures [absent] !result ==> (forall j int :: 0 <= j && j < len((*ig).Block) ==> (*ig).Block[j].Name != name)
 //@   loop#0 invariant forall j int :: 0 <= j && j <= rangeindex ==> (*ig).Block[j].Name != name
-//@ func (*Integration).AddRequiredFields$2 props=C16,C04
+//@ func (*Integration).AddRequiredFields$2 props=C16,C04,C02,C03
 //@   requires ig != nil
 //@   ensures [found] result ==> (exists j int witness rangeindex :: 0 <= j && j < len((*ig).Table.Columns) && (*ig).Table.Columns[j].Name == name)
 //@   ensures [absent] !result ==> (forall j int :: 0 <= j && j < len((*ig).Table.Columns) ==> (*ig).Table.Columns[j].Name != name)
 //@   loop#0 invariant forall j int :: 0 <= j && j <= rangeindex ==> (*ig).Table.Columns[j].Name != name
-//@ func (*Integration).AddRequiredFields$3 props=C16,C04
+//@ func (*Integration).AddRequiredFields$3 props=C16,C04,C02,C03
 //@   requires ig != nil
 //@   ensures [col] exists j int witness len((*ig).Table.Columns) - 1, _ :: 0 <= j && j < len((*ig).Table.Columns) && colAt(ig, j).Name == name
 //@   ensures [bd] exists j int witness len((*ig).Block) - 1, _ :: 0 <= j && j < len((*ig).Block) && bdAt(ig, j).Name == name
@@ -85,7 +85,7 @@ package config
 // "trace_" (the loop reads the elements through the slice taken before the
 // loop while add may reallocate it; the frame needed for that is not
 // expressible in the contract language) - covered by the bounded stand-in.
-//@ func (*Integration).AddRequiredFields props=C16,C04
+//@ func (*Integration).AddRequiredFields props=C16,C04,C02,C03
 //@   requires ig != nil
 //@   ensures [identity] igHasCol(ig, "ig_name") && igHasCol(ig, "src_name") && igHasCol(ig, "block_num") && igHasCol(ig, "tx_idx")
 //@   ensures [identity-filled] igHasBD(ig, "ig_name") && igHasBD(ig, "src_name") && igHasBD(ig, "block_num") && igHasBD(ig, "tx_idx")
